@@ -216,20 +216,27 @@ def r3b(repo, res, m):
     rows = []
     ok = True
     try:
-        for sc_pos, sc_m, cv, want in [(0, 0, 7, 0.0), (10.0, 10.0, 25, 2.5), (4.0, 4.0, 0, 0.0)]:
-            cov = Obj(single_copy=lambda q, s, a=sc_pos: a)
-            ev = Evaluator({"m": M1, "cn_solution": "S"},
-                           hook=lambda node, e_, cv=cv, cov=cov: (cv if isinstance(node, ast.Subscript) and ast.unparse(node.value) == "coverage"
-                                                                 else (cov.single_copy(0, 0) if isinstance(node, ast.Call) and
-                                                                       ast.unparse(node.func) == "coverage.single_copy" else NotImplemented)))
+        # single-copy depth of a *variant* (re-aligned indel counts) may differ from the pile-up depth of its position
+        for sc_pos, sc_m, cv, want in [(0, 0, 7, 0.0), (7.0, 10.0, 25, 2.5), (5.0, 4.0, 0, 0.0), (9.0, 4.0, 6, 1.5)]:
+            def single_copy(q, s_, a=sc_pos, b=sc_m):
+                return b if isinstance(q, tuple) else a
+
+            def hook(node, e_, cv=cv, sc=single_copy):
+                if isinstance(node, ast.Subscript) and ast.unparse(node.value) == "coverage":
+                    return cv
+                if isinstance(node, ast.Call) and ast.unparse(node.func) == "coverage.single_copy":
+                    return sc(e_.ev(node.args[0]), None)
+                return NotImplemented
+
+            ev = Evaluator({"m": M1, "cn_solution": "S"}, hook=hook)
             k, v = ev.run(body)
             got = ev.locals.get("cov")
-            rows.append(f"depth/copy={sc_pos}, reads={cv} -> {got}")
+            rows.append(f"depth/copy at position={sc_pos}, of the variant={sc_m}, reads={cv} -> {got}")
             ok = ok and got == want
     except (Unfoldable, Raised) as e:
         res.err("C02.R3", f"observed-copies definition outside folding language: {e}")
         return
-    res.ob("C02.R3", f, loop, ok, expected="observed copies = reads / single-copy depth, 0 where the structure has no copies",
+    res.ob("C02.R3", f, loop, ok, expected="observed copies = reads / single-copy depth of that variant (indel-aware), 0 where the structure has no copies",
            found="; ".join(rows), key="observed-copies")
 
 
@@ -388,7 +395,7 @@ def r6(repo, res, m, V, N):
               ("optimal", 1.25, (VA["1", 0], VA["1", 1], VN[M1], VN[M2]))]
         made = []
         env = {"lookup": lookup, "gene": "G", "cn_solution": "CN", "coverage": Obj(profile=Obj(gap=0.1)),
-               "model": Obj(solutions=lambda g: ys), "debug_info": {"sol": []}}
+               "model": Obj(solutions=lambda g=None: ys), "debug_info": {"sol": []}}
         funcs = {"sorted_tuple": lambda it: tuple(sorted(it)),
                  "SolvedAllele": lambda gene, major=None: ("SA", major),
                  "MajorSolution": lambda score=None, solution=None, cn_solution=None, added=None: made.append(
@@ -456,6 +463,48 @@ def r7(repo, res):
 VAL_SEED = 0
 
 
+def r8(repo, res, m, N):
+    """Optional families may be absent, but must not be stronger than documented: the one-novel-per-site rule exempts
+    insertions (an insertion and a substitution at one site can both be novel) and never spans two sites."""
+    f = m.func
+    n = 0
+    for s in m.sites:
+        if s.lin is None or s.lin.var_terms() or s.sense == "==":
+            continue
+        sums = s.lin.sum_terms()
+        if len(sums) != 1 or s.lin.const_value({}) is None:
+            continue
+        k, t = sums[0]
+        body = t.body
+        if not (len(body.terms) == 1 and body.terms[0][1].kind == "var" and body.terms[0][1].fam == N and float(k.num) > 0):
+            continue
+        if len(t.binders) != 1 or not any("pos" in ast.unparse(x) for x, _ in t.filters):
+            continue
+        n += 1
+        bound = -s.lin.const_value({}) / float(k.num)
+        cands = [Mut(100, "A>G"), Mut(100, "A>T"), Mut(100, "insT"), Mut(200, "C>T")]
+        inc = []
+        try:
+            for c_ in cands:
+                ev = Evaluator({N: {x: x for x in cands}, "pos": 100})
+                tgt, it = t.binders[0]
+                for item in list(ev.ev(it)):
+                    ev._assign(tgt, item)
+                    key = ev.ev(body.terms[0][1].keys[0])
+                    if key == c_ and all(bool(ev.ev(flt)) == pol for flt, pol in t.filters):
+                        inc.append(c_)
+        except (Unfoldable, Raised) as e:
+            res.note(f"C02.R8: one-novel-per-site family not in the folding language ({e}); not judged")
+            continue
+        ok = set(inc) <= {Mut(100, "A>G"), Mut(100, "A>T")} and bound >= 1
+        res.ob("C02.R8", f, s.call, ok,
+               expected="at most one novel *non-insertion* variant per site (insertions and other sites are not part of the sum)",
+               found=f"sum ranges over {sorted(map(str, inc))} <= {bound:g}",
+               clause="every admissible combination within the optimality gap is reported (an over-tight optional rule makes admissible combinations infeasible)",
+               key="one-novel-per-site")
+    res.count("C02.R8:one-novel-per-site sites", n)
+
+
 def run(repo, res):
     global VAL_SEED
     from sa.report import seed as _seed, thorough
@@ -484,6 +533,7 @@ def _run(repo, res):
     r4(repo, res, m, V, N)
     r5(repo, res, m, V, N, Efam)
     r6(repo, res, m, V, N)
+    r8(repo, res, m, N)
     r7(repo, res)
 
 
@@ -534,6 +584,10 @@ MUTANTS = [
          old="        elif any(cov[m] <= 0 for m in a.func_muts):", new="        elif all(cov[m] <= 0 for m in a.func_muts) and a.func_muts:"),
     dict(name="R7 missing configuration ignored", module="major", expect="C02.R7",
          old="    if set(cn_solution.solution) - set(a.cn_config for a in alleles.values()):", new="    if not alleles:"),
+    dict(name="R3 observed copies divided by the pile-up depth (seeded C02_b1 shape)", module="major", expect="C02.R3",
+         old="            cov = coverage[m] / coverage.single_copy(m, cn_solution)", new="            cov = coverage[m] / coverage.single_copy(m.pos, cn_solution)"),
+    dict(name="R8 one-novel-per-site also counts insertions (seeded C02_b4 shape)", module="major", expect="C02.R8",
+         old='            v for m, v in VNEW.items() if m[0] == pos and m[1][:3] != "ins"', new="            v for m, v in VNEW.items() if m[0] == pos"),
     # benign
     dict(name="benign: CSAT as ==", module="major", kind="benign",
          old='        model.addConstr(expr <= cnt, name=f"CSAT_{cnf}")\n        model.addConstr(expr >= cnt, name=f"CSAT_{cnf}")',
